@@ -211,6 +211,27 @@ theorem C05_bytes (t : DType) (xs : List Int) (h : ∀ x ∈ xs, t.inRange x) :
   rw [hl]
   exact Nat.le_mul_of_pos_right _ (bits_div_pos t)
 
+/-- `_to_smallest_integer_type`: whatever type is chosen holds every value of the array (so the
+`astype` that follows is lossless), and it is one of the eight numpy integer types with its true
+range. -/
+theorem C05_smallest_type_fits (xs : List Int) (c : String × Int × Int) (h : toSmallest xs = some c) :
+    (∀ x ∈ xs, c.2.1 ≤ x ∧ x ≤ c.2.2) ∧ c ∈ unsignedCands ++ signedCands := by
+  unfold toSmallest at h
+  split at h
+  · cases h
+  · have hf := List.find?_some h
+    have hm := List.mem_of_find?_eq_some h
+    refine ⟨by simpa [fitsCand] using hf, ?_⟩
+    simp only [List.mem_append] at hm ⊢
+    rcases hm with hm | hm
+    · split at hm
+      · exact Or.inl hm
+      · cases hm
+    · exact Or.inr hm
+
+example : toSmallest [-1, 0, 128] = some ("i16", -32768, 32767) := by decide
+example : toSmallest [0, 255] = some ("u8", 0, 255) := by decide
+
 /-! ## Chains -/
 
 theorem delta_sound (t : DType) (ht : t ≠ .i64) (xs : List Int) (hr : ∀ x ∈ xs, t.inRange x)
